@@ -53,7 +53,7 @@ static int outfd = 1;
 struct Shared {
   volatile int active; int maxprocs;
   long paths_ok, paths_fail, paths_pruned, paths_abort, paths_cut, paths_crash;
-  long solver_calls, forks, unknowns, by_norm, asserts, q_sat, q_unsat, maxdepth, fresh_solved;
+  long solver_calls, forks, unknowns, by_norm, asserts, q_sat, q_unsat, maxdepth, fresh_solved, div0_pruned;
   double solver_s; double deadline;   // absolute seconds (steady clock) after which paths are cut
 };
 static Shared* sh;
@@ -250,15 +250,22 @@ static int known_sign(const z3::expr& e) {      // +1 / -1: sign established syn
   return r;
 }
 // a / b ; establishes the sign of every numerator factor of b (forks where both signs are feasible)
+static bool div0_prune = false;
+static void div_by_zero() {
+  // IEEE gives +-inf/NaN here; the sign of a real zero is not modelled, so the path cannot be continued soundly.
+  // With SYM_DIV0_PRUNE the path is dropped and counted (the evidence lists it as outside the claim); otherwise it is an inconclusive ABORT.
+  if (div0_prune) { __sync_fetch_and_add(&sh->div0_pruned, 1); path_exit(2, ""); }
+  path_exit(3, "division by zero reachable (REAL mode)");
+}
 static Term tdiv(const Term& a, const Term& b) {
-  if (tzero(b)) path_exit(3, "division by zero reachable (REAL mode)");
+  if (tzero(b)) div_by_zero();
   Term inv{norm(ctx->real_val(1) / b.c), {}, {}};
   for (auto& d : b.df) inv.nf.push_back(d.f);
   z3::expr zero = ctx->real_val(0);
   for (auto& f : b.nf) {
     int ks = known_sign(f);
     if (ks) { __sync_fetch_and_add(&sh->by_norm, 1); inv.df.push_back(DF{f, ks}); continue; }
-    if (decide(f == zero)) path_exit(3, "division by zero reachable (REAL mode)");
+    if (decide(f == zero)) div_by_zero();
     int sg = decide(f > zero) ? 1 : -1;
     inv.df.push_back(DF{f, sg});
   }
@@ -888,6 +895,7 @@ int main(int argc, char** argv) {
   if (getenv("SYM_UNKNOWN_ABORT")) unknown_both = false;
   if (getenv("SYM_TRACE_FORKS")) trace_forks = true;
   if (getenv("SYM_ABS_NOFORK")) abs_nofork = true;
+  if (getenv("SYM_DIV0_PRUNE")) div0_prune = true;
   if (const char* o = getenv("SYM_OUT")) { outfd = open(o, O_WRONLY | O_CREAT | O_APPEND, 0644); if (outfd < 0) { perror("SYM_OUT"); return 2; } }
   sh = (Shared*)mmap(0, sizeof(Shared), PROT_READ | PROT_WRITE, MAP_SHARED | MAP_ANONYMOUS, -1, 0);
   memset(sh, 0, sizeof(Shared)); sh->maxprocs = getenv("SYM_PROCS") ? atoi(getenv("SYM_PROCS")) : 1;
@@ -914,7 +922,7 @@ int main(int argc, char** argv) {
   int st; waitpid(pid, &st, 0);
   double wall = now_s() - t0;
   if (!WIFEXITED(st) || WEXITSTATUS(st) != 0) note_crash(st);
-  printf("SUMMARY {\"mode\":\"%s\",\"paths_ok\":%ld,\"fail\":%ld,\"pruned\":%ld,\"abort\":%ld,\"cut\":%ld,\"crash\":%ld,\"forks\":%ld,\"solver_calls\":%ld,\"q_sat\":%ld,\"q_unsat\":%ld,\"by_norm\":%ld,\"asserts\":%ld,\"solver_s\":%.3f,\"unknown\":%ld,\"fresh_solved\":%ld,\"maxdepth\":%ld,\"wall_s\":%.3f}\n", mode == REAL ? "real" : "fp",
-         sh->paths_ok, sh->paths_fail, sh->paths_pruned, sh->paths_abort, sh->paths_cut, sh->paths_crash, sh->forks, sh->solver_calls, sh->q_sat, sh->q_unsat, sh->by_norm, sh->asserts, sh->solver_s, sh->unknowns, sh->fresh_solved, sh->maxdepth, wall);
+  printf("SUMMARY {\"mode\":\"%s\",\"paths_ok\":%ld,\"fail\":%ld,\"pruned\":%ld,\"abort\":%ld,\"cut\":%ld,\"crash\":%ld,\"forks\":%ld,\"solver_calls\":%ld,\"q_sat\":%ld,\"q_unsat\":%ld,\"by_norm\":%ld,\"asserts\":%ld,\"solver_s\":%.3f,\"unknown\":%ld,\"fresh_solved\":%ld,\"maxdepth\":%ld,\"div0_pruned\":%ld,\"wall_s\":%.3f}\n", mode == REAL ? "real" : "fp",
+         sh->paths_ok, sh->paths_fail, sh->paths_pruned, sh->paths_abort, sh->paths_cut, sh->paths_crash, sh->forks, sh->solver_calls, sh->q_sat, sh->q_unsat, sh->by_norm, sh->asserts, sh->solver_s, sh->unknowns, sh->fresh_solved, sh->maxdepth, sh->div0_pruned, wall);
   return 0;
 }
